@@ -10,6 +10,7 @@ Monitors on the real engine:
      (len + 1) * (step_limit + 2).
 """
 import json
+import struct
 import random
 
 from vf import rxgen
@@ -131,6 +132,57 @@ def w_construct(case, opts):
         ent["script_py"] = r2.get("py")
         if r2["out"] != "ok":
             ent["script_err"] = r2.get("err") or r2.get("abort")
+        out.append(ent)
+    return {"res": out}
+
+
+GRID_SUBJECTS = ["", "a", "hi", "aab\nabc aaaa", "\ud83d\ude00x\ud83d\ude00", "# a", "a;", "a-b", "\u00df\u0130"]
+GRID_LASTINDEX = ["0", "1", "2", "3", "4", "7", "99", "-1", "1.5", "4294967296", "1e21", "NaN", "Infinity", "-Infinity", "undefined", "null", "'2'", "{}", "S.length", "S.length + 1", "S.length - 1"]
+GRID_FLAGS = ["", "g", "y", "gy", "gu", "yu", "giy", "gmy", "gsuy", "m", "u"]
+GRID_SCRIPT = """
+var done = 0, errs = {};
+function note(e) { if (!(e instanceof Error)) { throw e; } errs[e.name] = (errs[e.name] || 0) + 1; }
+var re = null;
+try { re = new RegExp(P, F); } catch (e) { note(e); }
+if (re !== null) {
+  for (var si = 0; si < SUBJECTS.length; si++) {
+    var S = SUBJECTS[si];
+    for (var li = 0; li < LIS.length; li++) {
+      var L = eval(LIS[li]);
+      try { re.lastIndex = L; re.exec(S); done++; } catch (e) { note(e); }
+      try { re.lastIndex = L; re.test(S); done++; re.test(S); re.exec(S); } catch (e) { note(e); }
+      try { re.lastIndex = L; S.replace(re, '!'); done++; } catch (e) { note(e); }
+      try { re.lastIndex = L; S.replace(re, function (m) { return '<' + m + '>'; }); done++; } catch (e) { note(e); }
+      try { re.lastIndex = L; S.match(re); done++; } catch (e) { note(e); }
+      try { re.lastIndex = L; S.split(re); done++; } catch (e) { note(e); }
+      try { re.lastIndex = L; S.search(re); done++; } catch (e) { note(e); }
+      try { re.lastIndex = L; S.replaceAll(re, '-'); done++; } catch (e) { note(e); }
+      try { re.lastIndex = L; var it = S.matchAll(re), n = 0; for (var m of it) { if (++n > 20) break; } done++; } catch (e) { note(e); }
+      try { var li2 = re.lastIndex; if (typeof li2 !== 'number' && li2 !== L) { throw 'lastIndex became ' + typeof li2; } } catch (e) { note(e); }
+    }
+  }
+}
+[done, JSON.stringify(errs)];
+"""
+
+
+def w_matchgrid(case, opts):
+    """Accepted patterns x flags, matched from every kind of lastIndex (past the end, negative, fractional, huge, non-numeric) on
+    several subjects through every regex-consuming API: the only outcomes are results and script errors."""
+    from vf import engine as E
+    import random as _r
+    out = []
+    for p, f, seed in case["items"]:
+        rr = _r.Random(seed)
+        ctx = E.new_context(None, None)
+        ctx.set("P", p)
+        ctx.set("F", f)
+        ctx.set("SUBJECTS", rr.sample(GRID_SUBJECTS, 3))
+        ctx.set("LIS", rr.sample(GRID_LASTINDEX, 5) + ["S.length + 1"])
+        r = E.run_js(GRID_SCRIPT, {"log": False, "max_steps": 1_500_000}, ctx=ctx)
+        ent = {"o": r["out"], "py": r.get("py")}
+        if r["out"] != "ok":
+            ent["err"] = r.get("err") or r.get("abort")
         out.append(ent)
     return {"res": out}
 
@@ -261,8 +313,15 @@ def main(ctx):
             # the backtrack-stack budget runs out (one entry per character, no time limit involved) under every entry point
             for un, use in USES_ALL:
                 fam.append({"pattern": pat, "subject": (unit * 5200)[:5200] + "!", "use": use, "usen": un, "D": None, "anchor": True})
+    CURATED = ["\\b\\w+", "\\B-", "^#.*", ";?$", "(?<=a)b", "(?<!a)b", "(a)\\1", "\\b", "$", "^", "a*", "(?:)", ".", "[^]", "\\s*", "(?=.)", "\\w+\\b", "\\ud83d", "[\\ud83d\\ude00]", "\\u{1F600}", ".$", "\\n^"]
+    gitems = [(p, f, i) for i, p in enumerate(CURATED) for f in GRID_FLAGS]
+    for i, p in enumerate(pats[: (700 if ctx.quick else 8000)]):
+        gitems.append((p, rng.choice(GRID_FLAGS), ctx.seed * 100003 + i))
+        if i % 3 == 0:
+            gitems.append((p, rng.choice(["y", "gy", "yu"]), ctx.seed * 100003 + i + 1))
     ep = engine_pool()
     try:
+        gres = ep.map({"mod": "checks.C10", "fn": "w_matchgrid"}, [{"items": gitems[i:i + 25]} for i in range(0, len(gitems), 25)], batch=1, timeout=900, single_timeout=300)
         cres = ep.map({"mod": "checks.C10", "fn": "w_construct"}, [{"items": items[i:i + 40]} for i in range(0, len(items), 40)], batch=1,
                       timeout=600, single_timeout=120)
         lres = ep.map({"mod": "checks.C10", "fn": "w_literal"}, [{"srcs": lits[i:i + 100]} for i in range(0, len(lits), 100)], batch=1, timeout=600)
@@ -356,6 +415,38 @@ def main(ctx):
             continue
         ctx.violation(("family", prob.split(":")[0][:50], c["pattern"], c["usen"]), {"case": {k: (v if k != "subject" else v[:40] + "...") for k, v in c.items()},
                                                                                        "subject_len": L, "problem": prob, "observed": r})
+    gi = 0
+    grid_ops = 0
+    grid_out = {}
+    for r in gres:
+        chunk = gitems[gi:gi + 25]
+        gi += 25
+        if not r or "res" not in r:
+            ctx.violation(("matchgrid-no-return",), {"case": [repr(x) for x in chunk], "detail": r, "monitor": "watchdog"})
+            continue
+        for (p, f, sd), e in zip(chunk, r["res"]):
+            ctx.count()
+            prob = None
+            if e["o"] == "ok":
+                try:
+                    grid_ops += int(e["py"][1][0][1])
+                except Exception:   # noqa
+                    pass
+                ctx.nontrivial(("grid", p, f))
+            elif e["o"] == "abort":
+                grid_out["budget"] = grid_out.get("budget", 0) + 1       # work budget of the harness: not judged here (families do)
+            elif e["o"] == "hosterr" or (isinstance(e.get("err"), dict) and e["err"].get("kind") == "host"):
+                prob = "host exception %s at %s" % (e["err"].get("cls"), e["err"].get("site"))
+            elif e["o"] == "jserr":
+                prob = "error escaped the script's try/catch: %s %s" % (e["err"].get("cls"), e["err"].get("name"))
+            else:
+                prob = "outcome %s" % e["o"]
+            grid_out[e["o"]] = grid_out.get(e["o"], 0) + 1
+            if prob:
+                ctx.violation(("matchgrid", prob.split(" at ")[0][:60]), {"case": {"pattern": p, "flags": f, "sample_seed": sd, "script": GRID_SCRIPT}, "problem": prob, "observed": e})
+    ctx.cov["matchgrid_pattern_flag_cells"] = len(gitems)
+    ctx.cov["matchgrid_operations_completed"] = grid_ops
+    ctx.cov["matchgrid_outcomes"] = grid_out
     mem_checked = 0
     for sh, r in zip(MEM_SHAPES, mres):
         ctx.count()
